@@ -69,6 +69,15 @@ func init() {
 		vc.S.Assert(eq(r, fmt.Sprintf("(exists ((i Int)) (and (<= 0 i) (< i (str-len %s)) (= (str-at %s i) %d)))", s, s, c)))
 		return &Val{T: r, Typ: resT}, true
 	})
+	reg("strings.TrimPrefix", func(fr *Frame, in ssa.Instruction, args []*Val, resT types.Type) (*Val, bool) {
+		vc := fr.vc
+		vc.needStrSub()
+		s, pre := vc.term(args[0]), vc.term(args[1])
+		hp := vc.S.FreshConst("hasPrefix", "Bool")
+		vc.S.Assert(eq(hp, strPrefix(s, pre)))
+		r := vc.S.Define("trimPrefix", "Str", ite(hp, fmt.Sprintf("(str-sub %s (str-len %s) (str-len %s))", s, pre, s), s))
+		return &Val{T: r, Typ: resT}, true
+	})
 	reg("strings.ContainsAny", func(fr *Frame, in ssa.Instruction, args []*Val, resT types.Type) (*Val, bool) {
 		vc := fr.vc
 		ci := in.(ssa.CallInstruction)
